@@ -35,9 +35,20 @@ func DoRSAencrypt(block []byte, key *rsa.PublicKey) []byte {
 
 	c := big.NewInt(0).Exp(z, exponent, key.N)
 
-	res := make([]byte, 256)
-	copy(res, c.Bytes())
+	// the ciphertext is a 256-byte big-endian number: big.Int.Bytes() drops its leading zero bytes
+	return FixedBytes(c, 256)
+}
 
+// FixedBytes returns the big-endian bytes of n left-padded with zeros to size bytes (big.Int.Bytes() drops
+// leading zero bytes, fixed-width protocol fields must keep them). A value that does not fit into size bytes
+// is returned as is.
+func FixedBytes(n *big.Int, size int) []byte {
+	b := n.Bytes()
+	if len(b) >= size {
+		return b
+	}
+	res := make([]byte, size)
+	copy(res[size-len(b):], b)
 	return res
 }
 
